@@ -7,6 +7,7 @@ MODULES = [
     "contracts.obs_ops",
     "contracts.obs_gamma",
     "contracts.obs_jack",
+    "contracts.obs_types",
     "contracts.corr",
     "contracts.readers",
     "contracts.dirac",
